@@ -81,6 +81,15 @@ def generate(seed, tier="quick"):
             m = rng.choice(live)
             ops.append(per[m][cur[m]])
             cur[m] += 1
+    # the driver rewrites the phase fractions of a params dict in place between calls
+    two = [j for j, p in enumerate(world["paramsets"]) if len(p["phase_assemblage"]) > 1]
+    if two and not with_dup and rng.random() < 0.45:
+        # (not together with the identically-driven duplicate: a rewrite landing between the
+        # two copies' updates would legitimately make them differ)
+        for _ in range(rng.randint(1, 3)):
+            a = rng.choice([0.2, 0.4, 0.6, 0.8, rng.uniform(0.05, 0.95)])
+            ops.insert(rng.randrange(len(ops) + 1),
+                       {"op": "set_fractions", "params": rng.choice(two), "fractions": [a, 1.0 - a]})
     scn = {"property": PROPERTY, "engine": "world", "seed": seed, "world": world, "ops": ops,
            "dup": n_all - 1 if with_dup else None}
     # C08.reorder tail: one bulk update from the reached state, in two orders
@@ -192,6 +201,8 @@ def execute(scn):
     alternations = 0
     last = None
     for op in flat:
+        if op["op"] == "set_fractions":
+            continue
         if last is not None and op["m"] != last:
             alternations += 1
         last = op["m"]
@@ -199,7 +210,7 @@ def execute(scn):
     # ---- solo executions
     for m in range(n_all):
         wS = World(spec)
-        wS.run([o for o in flat if o["m"] == m])
+        wS.run([o for o in flat if o["op"] == "set_fractions" or o["m"] == m])
         d = bit_compare(history_of(wS, m), history_of(wI, m))
         c["solo_vs_interleaved_compared"] = c.get("solo_vs_interleaved_compared", 0) + 1
         if d:
@@ -216,21 +227,33 @@ def execute(scn):
         p["phase_fractions"] = p["phase_fractions"][::-1]
         p["assemblage_as"] = "tuple" if p.get("assemblage_as") == "list" else "list"
     wP = World(specP)
-    wP.run(flat)
+    wP.run([dict(o, fractions=o["fractions"][::-1]) if o["op"] == "set_fractions" else o for o in flat])
     for m in range(n_all):
         d = bit_compare(history_of(wP, m), history_of(wI, m))
         if two_phase:
             c["permuted_compared"] = c.get("permuted_compared", 0) + 1
         if d:
             v("permute", m, d)
+    # ---- dict identity: an equal, newly built params dict for every call
+    specF = copy.deepcopy(spec)
+    specF["fresh_params_per_call"] = True
+    wF = World(specF)
+    wF.run(flat)
+    c["params_rewritten_in_place"] = sum(1 for o in flat if o["op"] == "set_fractions")
+    for m in range(n_all):
+        d = bit_compare(history_of(wF, m), history_of(wI, m))
+        c["fresh_params_dict_compared"] = c.get("fresh_params_dict_compared", 0) + 1
+        if d:
+            v("params_identity", m, dict(d, what2="results depend on the identity / earlier contents "
+                                                  "of the params dict, not on its values"))
     # ---- identically built and driven twin
     if scn.get("dup") is not None:
         d = bit_compare(history_of(wI, 0)[:2] + ([],), history_of(wI, scn["dup"])[:2] + ([],))
         c["identical_twin_compared"] = 1
         if d:
             v("twin", scn["dup"], d)
-    # ---- own fraction only
-    if two_phase:
+    # ---- own fraction only (histories without in-place rewrites of the fractions)
+    if two_phase and not any(o["op"] == "set_fractions" for o in flat):
         p0 = int(spec["minerals"][0]["phase"])
         specO = copy.deepcopy(spec)
         for p in specO["paramsets"]:
@@ -238,7 +261,7 @@ def execute(scn):
                                     for ph, f in zip(p["phase_assemblage"], p["phase_fractions"])]
         wO = World(specO)
         same = [m for m in range(n_all) if int(spec["minerals"][m]["phase"]) == p0]
-        wO.run([o for o in flat if o["m"] in same])
+        wO.run([o for o in flat if o["op"] != "set_fractions" and o["m"] in same])
         for m in same:
             d = bit_compare(history_of(wO, m)[:2] + ([],), history_of(wI, m)[:2] + ([],))
             c["other_phase_fraction_changed_compared"] = c.get("other_phase_fraction_changed_compared", 0) + 1
@@ -246,7 +269,7 @@ def execute(scn):
                 v("own_fraction", m, dict(d, what2="changing only the OTHER phase's fraction changed this mineral"))
         # single-phase mineral with mobility M* x phi
         if spec.get("solver", {}).get("tol") == "tight":
-            ops_same = [o for o in flat if o["m"] in same]
+            ops_same = [o for o in flat if o["op"] != "set_fractions" and o["m"] in same]
             vs = _single_phase(spec, ops_same, same, p0, c, maxima)
             if vs:
                 # not bit-identical arithmetic by contract (phi*M* is formed at another place):
@@ -384,7 +407,7 @@ ASSUMPTIONS = [
     "nested same-thread re-entry (an update started from inside a callback of another) is excluded: scipy's LSODA forbids it",
     "over histories that feed the bulk F forward, reordering is only compared for one bulk call from a given state (bit-identical); F equality across minerals is C06's solver-tolerance statement",
 ]
-PROBES = ["overlap_ops", "baton_switches", "faults_fired_while_others_in_flight", "permuted_compared",
+PROBES = ["params_rewritten_in_place", "fresh_params_dict_compared", "overlap_ops", "baton_switches", "faults_fired_while_others_in_flight", "permuted_compared",
           "identical_twin_compared", "other_phase_fraction_changed_compared", "bulk_reorder_compared",
           "snapshots_compared"]
 RUN_TIMEOUT_S = 300
